@@ -553,7 +553,8 @@ def stream_mutation(cs, rng, valid, n):
                     lo, hi = BOUNDS[fi]
                     new = rng.choice([lo - 1, lo, lo + 1, hi - 1, hi, hi + 1, 0, 1, 5, 6, 7, 8, 31, 32, 60,
                                       "00" + m.group(0), "+" + m.group(0), "99999999999999999999", "9223372036854775807",
-                                      "9223372036854775808", "1_0", "0x1", ""])
+                                      "9223372036854775808", "1_0", "0x1", "",
+                                      2 ** 64 + lo, 2 ** 64 + hi, 2 ** 64 + int(m.group(0)), 2 ** 32 + int(m.group(0)), "0" * 25 + m.group(0)])
                     s = s[:m.start()] + str(new) + s[m.end():]
             cs.add(s, "mutation")
 
@@ -594,6 +595,9 @@ def stream_sweep(cs, rng, tier):
         if fi == YEAR and tier == "quick":
             ns = sorted(set(list(range(-2, 4)) + list(range(1962, 1982)) + list(range(3932, 3943))
                             + [rng.randint(4, 3931) for _ in range(25)]))
+        # numerals that wrap around to an in-range value in 64-bit (and 32-bit) arithmetic: a hand-rolled digit
+        # accumulator without an overflow check would accept them with the wrapped meaning
+        ns = ns + [2 ** 64 + lo, 2 ** 64 + hi, 2 ** 64 + (lo + hi) // 2, 2 ** 32 + lo, 2 ** 63 + hi, 2 * 2 ** 64 + lo]
         base = [val(0), val(0), val(0), ("f", ANY), ALL, ("f", ANY), ALL]
         forms = []
         for name, mk in sorted(sweep_positions(fi).items()):
